@@ -113,12 +113,14 @@ func runHTX(c *Ctx) *htxRun {
 		sort.Strings(out)
 		return out, true
 	}
+	frFamily := exclusiveCallees(p, p.Method("renderState", "filterRaw"))
 	h.rawAllow = func(ev htxEvent) (bool, string) {
 		fn := ev.instr.Parent()
 		ks, ok := kinds(fn, ev.instr.Block())
 		if !ok {
-			// inside the filter: raw HTML passes through by design; its call site is checked
-			if fn.Name() == "filterRaw" {
+			// inside the filter (filterRaw and helpers that exist only as pieces of it): raw HTML passes through by
+			// design; its call site is checked
+			if frFamily[fn] {
 				return true, ""
 			}
 			return false, "not inside a per-kind outcome of a renderer callback"
